@@ -71,6 +71,7 @@ func init() {
 			E9Fills(c, r)
 			E9HitCounting(c, r)
 			E9PendingPerSubpath(c, r)
+			E9InflectionAcrossLine(c, r)
 			E9CubicDirection(c, r)
 			E3ContainmentFilter(c, r)
 			E9TangentFromRoots(c, r)
@@ -84,6 +85,7 @@ func init() {
 		Title:       "Length, SplitAt and Reverse are consistent views of the same curve",
 		Explanation: "Decides the encoding clauses Length/SplitAt/Reverse/Split depend on, for every path: in every decoder loop of the package (incl. SplitAt, Reverse, Split, Length) a command cursor of one path only indexes that path's data; payload offsets stay inside the record of the command being decoded; every record built (incl. the ones Reverse emits) has the command at both ends and the format's length; cmdLen agrees with the format. NOT decided: quadrature, arc-length inversion, involution, winding negation.",
 		Run: func(c *core.Ctx, r *core.Report) {
+			E11CutsSortedBeforeUse(c, r)
 			E9ChordShortcut(c, r)
 			E11QuadratureCoversArc(c, r)
 			E3ArcShortcut(c, r)
@@ -257,6 +259,7 @@ func init() {
 		Explanation: "Decides, for every canvas: (1) 'rendering leaves the canvas, its paths and its gradients unchanged': RenderPath/RenderText/RenderImage of all four back-ends, Canvas.RenderTo/RenderViewTo and rasterizer.Draw write no memory reachable from the path, style (dash array, gradient stops, patterns), text, image or canvas arguments (interprocedural effect analysis on SSA with callback-invocation summaries); (2) the rasterizer reads every Style field including the fill rule; (3) every scanner emission maps coordinates as (x*dpmm, height-y*dpmm) and the image size is width x height x resolution in both constructors. NOT decided: pixel coverage, anti-aliasing, later-draws-cover-earlier, determinism of the scanner library.",
 		Assumptions: []string{"standard-library functions not in the mutator table are pure (listed in coverage.external_assumed)", "results of calls through function-typed parameters are fresh objects", "third-party Go dependencies are analysed from source, cgo is not"},
 		Run: func(c *core.Ctx, r *core.Report) {
+			E11SinkForwardsEverySegment(c, r)
 			E6SkipBoundsCover(c, r)
 			E11PixelLoopBounds(c, r)
 			E1Renderers(c, r)
@@ -277,6 +280,7 @@ func init() {
 		Title:       "Context and Canvas apply views, coordinate systems and state as documented",
 		Explanation: "Decides, for every call sequence: view helpers are exactly `view = view.Mul(Identity.<same-named op>(own parameters))` (post-multiplication) and ComposeView post-multiplies its argument; the four draw entry points assemble the same matrix CoordSystemView().Mul(view).Translate(coordView.Dot(x,y)) and compensate text/images exactly in the coordinate systems whose CoordSystemView reflects that axis; every Set*/Reset* method stores only into ContextState; Push saves and Pop restores the whole ContextState (Pop guarded, shrinking by one); Fill/Stroke clear and restore exactly the other paint; drawing does not rewrite the dash array shared with pushed states; RenderViewTo replays in sorted z-index then slice order with no renderer call inside a map range, and recording appends to the current z-index slice. NOT decided: the matrix algebra itself, Fit/Clip/Transform arithmetic, that DrawPath with several paths keeps per-path stroke state.",
 		Run: func(c *core.Ctx, r *core.Report) {
+			E11LayerMatrixLeft(c, r)
 			E11DashPairTogether(c, r)
 			E11SetterCopiesSlice(c, r)
 			E11DashCover(c, r)
@@ -469,6 +473,7 @@ func init() {
 			E11ConicFrame(c, r)
 			E11RotationMerge(c, r)
 			E11MatrixInverse(c, r)
+			E11MatrixComposers(c, r)
 			E11OmittedTerm(c, r)
 			E11GramConsistency(c, r)
 		},
